@@ -409,6 +409,9 @@ fn random_history(id: String, seed: u64, cat: &Catalogue, rng: &mut SplitMix64, 
         names: alphabet(rng),
         max_live: 4,
     };
+    if rng.chance(1, 3) {
+        g.cx.junk_before_format();
+    }
     g.cx.format();
     g.cx.mount();
     let target = rng.range(5, 60) as usize;
